@@ -4,6 +4,9 @@ import H2V.Lemmas.CodecSplit
 import H2V.Lemmas.CodecLoad
 import H2V.Lemmas.CodecReader
 import H2V.Lemmas.CodecWriter
+import H2V.Lemmas.CodecDecode
+import H2V.Lemmas.CodecRoundTrip
+import H2V.Lemmas.CodecWire
 /-
   C09 / C12 — frame codec (namespace `H2V.Lemmas.Codec`).
 
@@ -23,4 +26,9 @@ import H2V.Lemmas.CodecWriter
      `flush_exact`, `flush_prefix`, `buffer_appends`, `buffer_refused`, `writer_bytes_exact`,
      `writer_bytes_prefix`, `writer_bytes_all`, `tx_data_too_big`, `tx_data_within_max_frame_size`,
      `tx_headers_within_max_frame_size`
+  B'. `decode_frame` level                              CodecDecode
+     `decodeFrame_sound`, `decodeFrame_sound_parse`
+  A+B. h2 reads what h2 writes                          CodecRoundTrip, CodecWire
+     `roundtrip_{data,ping,goaway,window_update,reset,settings,settings_ack}`, `lastWins_settingsOrder`,
+     `feed_one_frame`, `feed_wire`, `feed_wire_chunks`, `frameBytes_*`
 -/
